@@ -163,7 +163,7 @@ theorem decodeLine_total (cfg : Cfg) (h : cfg.intRaises = false) : Total cfg :=
 theorem decodeLine_plain (cfg : Cfg) (st : Style) (l : List Char) (h : textOk l = true) :
     ∃ runs, decodeLine cfg st l = (st, .ok runs) ∧ plainOf runs = l := by
   have e1 : decodeLine cfg st l = R cfg st l [] := by
-    simp [decodeLine, R, tokenize, afterLastCR_noCR l (textOk_noCR h)]
+    simp [decodeLine, R, tokenize, afterLastCR_noCR cfg.crErases l (textOk_noCR h)]
   have e2 := R_text cfg st l [] [] (textOk_noEsc h)
   simp only [List.append_nil, List.nil_append] at e2
   refine ⟨flushRuns st l, ?_, ?_⟩
